@@ -6,6 +6,10 @@ props = [json.loads(l) for l in open(os.path.join(HERE, "properties.jsonl"))]
 
 # id -> (engine, technique, level text, level note, design ref)
 CLAIMED = {
+  "C02": ("engine-P", "invariant-over-history PBT with fault injection: unsubscribe() / guard drop injected at a generated (thorough: every) position of generated scripts on a virtual clock with an owned scheduler",
+          "Generated pipelines of the whole catalogue (all scheduler operators, interval/timer, three executor models, both builds) get an unsubscription injected at a generated position - in part every-cut at every position - after which inputs keep emitting, the clock passes every pending timer and all ready tasks run; no notification may be stamped later than the cut. Exploration within the stated bounds.",
+          "Trusts the probe's step stamps and the virtual scheduler; lock-level thread interleavings are the engine-T part's job.",
+          "DESIGN.md §3 C02"),
   "C03": ("engine-P", "model-based differential PBT (proptest tapes + shrinking) against a reference list interpreter; bounded-exhaustive enumeration of single operators",
           "Random search over operator chains x inputs compared with an independent list-semantics interpreter, plus complete enumeration of every single catalogue operator over all inputs of length <= 4 over {0,1,2} x every terminal. Exploration: a passing run means no counterexample within the stated bounds.",
           "Trusts the reference interpreter in harness/src/model.rs (written from the doc comments), the fixed family of predicate/map/fold functions, and that boxing (box_it) is transparent.",
@@ -42,6 +46,14 @@ CLAIMED = {
           "For generated inputs x key functions x terminals (cold and hot sources, Subject and SubjectThreads groups) the global delivery log must equal the source partitioned by key: announcement order, per-item group and step, one terminal per group and for the stream of groups; all inputs of length <= 5 over {0,1,2} are enumerated; flattening the groups must reproduce the source. Exploration within those bounds.",
           "Trusts the list code in props/c20.rs that derives the expected partition from the script; cross-group terminal order is deliberately unconstrained.",
           "DESIGN.md §3 C20"),
+  "C16": ("engine-P", "PBT over producer/intermediate/cutter chains with instrumented producers (counting iterator, counting stream, virtual-clock interval) and a scheduler-idleness oracle",
+          "Generated chains put a periodic, iterator or stream producer behind 0-3 pass-through operators and an early-terminating operator (producer as main input or as second input of every two-input operator); once the subscriber has its terminal the iterator may be pulled at most once more, the stream polled at most once more, and the scheduler must become idle within one period (no live task, no pending timer). Exploration within the stated bounds.",
+          "Trusts the pull/poll counters, the Tracked task wrapper (live task count) and the virtual clock's pending-timer count.",
+          "DESIGN.md §3 C16"),
+  "C17": ("engine-P + engine-S", "invariant-over-history PBT (is_closed() sampled after every step of generated pipeline cases) and model-based stateful testing of MultiSubscription histories (random + bounded-exhaustive)",
+          "Pipelines: is_closed() of the returned subscription is sampled after every step; after the first true no notification and no false may follow. Composites: histories of append/clone/unsubscribe/is_closed/child-finishes/retain on both composite types are compared with a model (every child unsubscribed exactly once, late additions torn down at once, all handles closed after unsubscribe, monotone answers); histories up to length 5 are enumerated exhaustively. Exploration within those bounds.",
+          "Trusts the probe subscriptions and the composite model in props/c17.rs.",
+          "DESIGN.md §3 C17"),
   "C18": ("engine-P", "differential / metamorphic PBT: every generated case is built from local types and from thread-safe types and the two delivered histories are compared",
           "Each generated pipeline+script is run twice on one thread (local forms vs every _threads/Threads form, same virtual scheduler choices); traces, is_closed() samples and finalize counts must be identical; a panic or self-deadlock in one build only is a difference. Exploration within the stated bounds.",
           "Trusts the two instantiations of the same builder text (build_body.rs) to differ only in the local/thread-safe forms; self-deadlock of a non-reentrant MutArc is detected through the verif_hooks lock hook.",
